@@ -12,11 +12,9 @@ pub struct P {
     pub len: usize,
     pub kind: Kind,
     pub single: bool,
-    /// 0 = the cipher crate's own contexts; 1 / 2 = a caller-supplied rank-2 closure passed to
-    /// `*_with_backend` / `process_with_backend`: full parallel groups through `*_par_blocks`, then the
-    /// remainder block by block (1) or through `*_tail_blocks` only if it is non-empty (2);
-    /// 3 (keystream cores only) = `write_keystream_block` (single) / `write_keystream_blocks` into a scratch
-    /// buffer that the harness XORs into the data
+    /// 0 = the cipher crate's own contexts; 1..=6 = a caller-supplied rank-2 closure passed to `*_with_backend` /
+    /// `process_with_backend` (shapes: see `base::api::BlockMode::many_closure`); 9 (keystream cores only) =
+    /// `write_keystream_block` (single) / `write_keystream_blocks` into a scratch buffer that the harness XORs in
     pub closure: u8,
 }
 pub fn p(len: usize, kind: Kind) -> P {
@@ -27,7 +25,7 @@ pub fn pc(len: usize, mode: u8) -> P {
     P { len, kind: Kind::InPlace, single: false, closure: mode }
 }
 pub fn ps(pieces: &[P]) -> String {
-    pieces.iter().map(|p| format!("{}{}{}{}", p.len, if p.single { "s" } else { "" }, match p.closure { 0 => "", 1 => "c", 2 => "t", _ => "w" }, match p.kind { Kind::InPlace => "", Kind::B2b => "b", Kind::InOut => "x" })).collect::<Vec<_>>().join(",")
+    pieces.iter().map(|p| format!("{}{}{}{}", p.len, if p.single { "s" } else { "" }, match p.closure { 0 => "", 1 => "c", 2 => "t", 3 => "ci", 4 => "ti", 5 => "cs", 6 => "cm", _ => "w" }, match p.kind { Kind::InPlace => "", Kind::B2b => "b", Kind::InOut => "x" })).collect::<Vec<_>>().join(",")
 }
 
 pub struct FeOut {
@@ -50,8 +48,8 @@ pub struct Fe<'a> {
     pub multi: bool,
     /// has a single-block entry point (`P::single` allowed for pieces of exactly `gran` bytes)
     pub singles: bool,
-    /// highest `P::closure` value the front-end understands (0 = none)
-    pub max_closure: u8,
+    /// the `P::closure` values the front-end understands besides 0
+    pub closures: Vec<u8>,
     pub kinds: Vec<Kind>,
     /// minimum total length accepted
     pub min_len: usize,
@@ -70,13 +68,14 @@ impl Fe<'_> {
                 v.push(P { len, kind, single: true, closure: 0 });
             }
         }
-        for c in 1..=self.max_closure.min(2) {
-            v.push(pc(len, c));
-        }
-        if self.max_closure >= 3 {
-            v.push(P { len, kind: Kind::InPlace, single: false, closure: 3 });
-            if n == 1 {
-                v.push(P { len, kind: Kind::InPlace, single: true, closure: 3 });
+        for &c in &self.closures {
+            if c == 9 {
+                v.push(P { len, kind: Kind::InPlace, single: false, closure: 9 });
+                if n == 1 {
+                    v.push(P { len, kind: Kind::InPlace, single: true, closure: 9 });
+                }
+            } else {
+                v.push(pc(len, c));
             }
         }
         v
@@ -103,7 +102,7 @@ pub fn fe_bm<'a>(cfg: &'a Cfg, d: &'a BlockModeDesc) -> Fe<'a> {
         gran: d.mbs,
         multi: true,
         singles: true,
-        max_closure: 2,
+        closures: vec![1, 2, 3, 4, 5, 6],
         kinds: KINDS.to_vec(),
         min_len: 0,
         run: Box::new(move |key, iv, data, pieces, prefill| {
@@ -141,7 +140,7 @@ pub fn fe_oneshot<'a>(cfg: &'a Cfg, d: &'a BlockModeDesc) -> Fe<'a> {
         gran: 1,
         multi: false,
         singles: false,
-        max_closure: 0,
+        closures: vec![],
         kinds: KINDS.to_vec(),
         min_len: 0,
         run: Box::new(move |key, iv, data, pieces, prefill| {
@@ -164,7 +163,7 @@ pub fn fe_buf<'a>(cfg: &'a Cfg, d: &'a BufCfbDesc) -> Fe<'a> {
         gran: 1,
         multi: true,
         singles: false,
-        max_closure: 0,
+        closures: vec![],
         kinds: vec![Kind::InPlace],
         min_len: 0,
         run: Box::new(move |key, iv, data, pieces, _prefill| {
@@ -190,7 +189,7 @@ pub fn fe_core<'a>(cfg: &'a Cfg, d: &'a CoreDesc, write: bool) -> Fe<'a> {
         gran: cfg.bs,
         multi: true,
         singles: true,
-        max_closure: if write { 2 } else { 3 },
+        closures: if write { vec![1, 2, 5, 6] } else { vec![1, 2, 5, 6, 9] },
         kinds: if write { vec![Kind::InPlace] } else { KINDS.to_vec() },
         min_len: 0,
         run: Box::new(move |key, iv, data, pieces, prefill| {
@@ -218,8 +217,8 @@ pub fn fe_core<'a>(cfg: &'a Cfg, d: &'a CoreDesc, write: bool) -> Fe<'a> {
                     if pc.closure != 0 {
                         let mut ks = prefill[o0..o0 + pc.len].to_vec();
                         match (pc.closure, pc.single) {
-                            (3, true) => obj.write_block(&mut ks),
-                            (3, false) => obj.write_blocks(&mut ks),
+                            (9, true) => obj.write_block(&mut ks),
+                            (9, false) => obj.write_blocks(&mut ks),
                             (m, _) => obj.write_blocks_closure(m, &mut ks),
                         }
                         ob = rf::x(inp, &ks);
@@ -245,7 +244,7 @@ pub fn fe_stream<'a>(cfg: &'a Cfg, d: &'a CoreDesc) -> Fe<'a> {
         gran: 1,
         multi: true,
         singles: false,
-        max_closure: 0,
+        closures: vec![],
         kinds: KINDS.to_vec(),
         min_len: 0,
         run: Box::new(move |key, iv, data, pieces, prefill| {
@@ -275,7 +274,7 @@ pub fn fe_cts<'a>(cfg: &'a Cfg, d: &'a CtsDesc, dir: Dir) -> Fe<'a> {
         gran: 1,
         multi: false,
         singles: false,
-        max_closure: 0,
+        closures: vec![],
         kinds: KINDS.to_vec(),
         min_len: cfg.bs,
         run: Box::new(move |key, iv, data, pieces, prefill| {
@@ -389,7 +388,20 @@ pub fn byte_lengths(bs: usize, max: usize) -> Vec<usize> {
 }
 /// a few long lengths (past 8 and 16 blocks, whatever the parallel width): catches fixed bulk-path thresholds
 pub fn long_lengths(bs: usize) -> Vec<usize> {
-    vec![8 * bs, 9 * bs - 1, 9 * bs + 1, 17 * bs + 1]
+    let mut v = vec![8 * bs, 9 * bs - 1, 9 * bs + 1, 17 * bs + 1];
+    if bs <= 16 {
+        // past 64 and 256 blocks (1 KiB / 4 KiB with 16-byte blocks): size thresholds of "bulk" paths
+        v.extend([65 * bs + 1, 257 * bs + 1]);
+    }
+    v
+}
+/// whole-block counterparts of `long_lengths` for the block-only modes
+pub fn long_block_lengths(bs: usize) -> Vec<usize> {
+    let mut v = vec![9 * bs, 17 * bs];
+    if bs <= 16 {
+        v.extend([65 * bs, 257 * bs]);
+    }
+    v
 }
 /// number of blocks a single call must be able to exceed: twice the parallel width and fixed thresholds up to 16
 pub fn long_blocks(par: usize) -> usize {
